@@ -491,10 +491,12 @@ class ComponentWorld(FieldWorld):
 class MessageWorld(World):
     kind = 'message'
 
-    def __init__(self, version, level, rng, structure='ADT_A01'):
+    def __init__(self, version, level, rng, structure='ADT_A01', ec=None):
         World.__init__(self, version, level, rng)
         from hl7apy import core
         self.core = core
+        self.ec = ec            # custom delimiters declared by both messages
+        self.f = ec['FIELD'] if ec else '|'
         node = tables.messages(version)[structure]
         self.structure = structure
         places = tables.segment_name_places(node)
@@ -520,9 +522,10 @@ class MessageWorld(World):
         self.order = [c.name for c in node.children if c.name in self.nodes]
         self.names = list(self.order)
         for k in ('M', 'N'):
-            m = core.Message(structure, version=version, validation_level=level)
+            m = core.Message(structure, version=version, validation_level=level,
+                             encoding_chars=dict(ec) if ec else None)
             m.msh.msh_7 = '20200101120000'
-            m.msh.msh_9 = structref_msh9(version, structure)
+            m.msh.msh_9 = structref_msh9(version, structure).replace('^', ec['COMPONENT'] if ec else '^')
             m.msh.msh_10 = 'id%s' % k
             self.els[k] = m
             self.model[k] = []          # ordered [(name, text)]
@@ -531,13 +534,15 @@ class MessageWorld(World):
     def describe(self):
         d = World.describe(self)
         d['structure'] = self.structure
+        if self.ec is not None:
+            d['ec'] = {k: v for k, v in self.ec.items() if k not in ('SEGMENT', 'GROUP')}
         return d
 
     def text_for(self, name):
         self.n += 1
         if self.group is not None and name == self.group.name:
-            return '%s|%d' % (self.group.children[0].name, self.n)
-        return '%s|%d' % (name, self.n)
+            return '%s%s%d' % (self.group.children[0].name, self.f, self.n)
+        return '%s%s%d' % (name, self.f, self.n)
 
     def encode_model(self, el):
         items = self.model[el]
@@ -590,10 +595,14 @@ class MessageWorld(World):
         if self.group is not None and name == self.group.name:
             g = core.Group(name, version=self.version, validation_level=self.level)
             s = g.add_segment(self.group.children[0].name)
-            setattr(s, '%s_1' % s.name.lower(), text.split('|')[1])
+            setattr(s, '%s_1' % s.name.lower(), text.split(self.f)[1])
             return g
         s = core.Segment(name, version=self.version, validation_level=self.level)
-        s.value = text
+        if self.ec is not None:
+            # a parentless segment would split the text with the default delimiters
+            setattr(s, '%s_1' % name.lower(), text.split(self.f)[1])
+        else:
+            s.value = text
         return s
 
     def apply_real(self, op):
@@ -612,10 +621,10 @@ class MessageWorld(World):
             if isgrp:
                 g = self.guard(lambda: el.add_group(name))
                 s = self.guard(lambda: g.add_segment(self.group.children[0].name))
-                self.guard(lambda: setattr(s, '%s_1' % s.name.lower(), op[3].split('|')[1]))
+                self.guard(lambda: setattr(s, '%s_1' % s.name.lower(), op[3].split(self.f)[1]))
             else:
                 s = self.guard(lambda: el.add_segment(name))
-                self.guard(lambda: setattr(s, '%s_1' % name.lower(), op[3].split('|')[1]))
+                self.guard(lambda: setattr(s, '%s_1' % name.lower(), op[3].split(self.f)[1]))
         elif k == 'del':
             self.guard(lambda: delattr(el, op[3]))
         elif k == 'delidx':
@@ -678,7 +687,8 @@ FAULTS = ('f_wrong_class', 'f_wrong_name', 'f_foreign_elem', 'f_level_add', 'f_l
           'f_version_set', 'f_card', 'f_badvalue', 'f_del_absent', 'f_delidx_absent', 'f_dtchange', 'f_value_wrongname',
           'f_children_bad', 'f_settype', 'f_value_badleaf', 'f_deep_level_set', 'f_deep_version_set',
           'f_parent_ctor_level', 'f_parent_ctor_version', 'f_parent_assign_level', 'f_parent_assign_version',
-          'f_children_keep_bad', 'f_proxy_badvalue', 'f_dtobject_complex')
+          'f_children_keep_bad', 'f_proxy_badvalue', 'f_dtobject_complex', 'f_ctor_parent_refused',
+          'f_children_moved_then_bad')
 WILD = ('w_reattach', 'w_add_twice', 'w_set_own', 'w_read', 'w_parent_ctor', 'w_del_view', 'w_pop', 'w_children_assign',
         'w_value', 'w_setitem_view', 'w_deep_write', 'w_detached_readd', 'w_parent_assign', 'w_insert_view',
         'w_dtobject', 'w_setitem_view_elem', 'w_read_beyond')
@@ -719,7 +729,7 @@ def _child_cls(world):
 def _child_text(world, name, val):
     if world.kind == 'message':
         g = world.group
-        return '%s|%s' % (g.children[0].name if g is not None and name == g.name else name, val[1:])
+        return '%s%s%s' % (g.children[0].name if g is not None and name == g.name else name, getattr(world, 'f', '|'), val[1:])
     return val
 
 
@@ -800,7 +810,8 @@ def apply_wild(world, op):
             else:
                 G(lambda: setattr(el, lname, 'x' * 70000))
         elif world.kind == 'message':
-            G(lambda: setattr(el, lname, _child_text(world, name, val).split('|')[0] + '|not a number'))
+            G(lambda: setattr(el, lname, _child_text(world, name, val).split(getattr(world, 'f', '|'))[0] +
+                              getattr(world, 'f', '|') + 'not a number'))
         else:
             G(lambda: setattr(el, lname, 'x' * 70000))
     elif k == 'f_del_absent':
@@ -906,6 +917,39 @@ def apply_wild(world, op):
                 raise Skip()
             world.detached.append(offered)
             G(lambda: setattr(offered, 'parent', el))
+    elif k == 'f_ctor_parent_refused':
+        # constructors given parent= together with arguments they refuse after looking the element up (a datatype override
+        # under STRICT, an invalid or over-long leaf value): the parent is untouched
+        if world.kind == 'segment':
+            row = world.rows[name]
+            G(lambda: core.Field(name, datatype='ST' if row.datatype != 'ST' else 'NM', parent=el, version=world.version,
+                                 validation_level=world.level))
+        elif world.kind == 'field':
+            crow = world.comps[name]
+            G(lambda: core.Component(name, datatype='NM' if crow.datatype != 'NM' else 'ST', parent=el,
+                                     version=world.version, validation_level=world.level))
+        elif world.kind == 'component':
+            G(lambda: core.SubComponent(name, value='x' * 70000, parent=el, version=world.version,
+                                        validation_level=world.level))
+        else:
+            raise Skip()
+    elif k == 'f_children_moved_then_bad':
+        # a children list holding an element taken from the other parent, then one that is refused: the other parent keeps
+        # its child
+        if world.kind == 'message' or not reps(other):
+            raise Skip()
+        if world.kind == 'segment':
+            bad = core.Field('MSH_3' if world.seg != 'MSH' else 'PID_3', version=world.version,
+                             validation_level=world.level)
+        elif world.kind == 'field':
+            bad = core.Component('MSG_1' if world.row.datatype != 'MSG' else 'CX_1', version=world.version,
+                                 validation_level=world.level)
+        else:
+            bad = core.Field('PID_1', version=world.version, validation_level=world.level)
+        world.detached.append(bad)
+        offered = bad
+        moved = reps(other)[i % len(reps(other))]
+        G(lambda: setattr(el, 'children', [moved, bad]))
     elif k == 'f_children_keep_bad':
         # the current children plus one the element must refuse, assigned as a whole
         if world.kind == 'segment':
